@@ -62,8 +62,8 @@ pub fn compare_sentinel(c: &Context, s: &SentinelTruth) -> (Vec<String>, u64) {
     // flags: the bits the thread set (arithmetic flags + DF)
     if s.mode != Mode::Spinner3 {
         compared += 1;
-        if (c.eflags as u64) & 0xCD5 != s.regs.rflags & 0xCD5 {
-            bad.push(format!("eflags: captured {:#x} expected {:#x} (mask 0xcd5)", c.eflags, s.regs.rflags));
+        if (c.eflags as u64) & 0x24_0CD5 != s.regs.rflags & 0x24_0CD5 {
+            bad.push(format!("eflags: captured {:#x} expected {:#x} (mask 0x240cd5)", c.eflags, s.regs.rflags));
         }
     }
     // segments
